@@ -1,6 +1,6 @@
 """Helpers shared by the routing checks (C03, C04, C05, C06, C10, C20): scene generation from
 the TLC-enumerated families, harness invocation, conversion of harness output into records."""
-import json, os, random
+import re, json, os, random
 import vcheck as V
 
 GEN = os.path.join(V.SPEC, 'avoid', 'RouteGen.tla')
@@ -43,14 +43,76 @@ def write_scenes(path, scenes):
             f.write(' '.join(map(str, row)) + '\n')
 
 
+def _run_part(hr, sf, of, chunk):
+    """One harness process per restart: a scene in which the process dies (crash inside the library, or no return within
+    the time limit) is recorded from the harness's own #PENDING line, and the run continues after it."""
+    import subprocess
+    recs, died, skip = [], [], 0
+    total = sum(1 for _ in open(sf))
+    while skip < total:
+        p = subprocess.run(['timeout', '-s', 'KILL', str(120 + (total - skip)), hr, 'scenes', sf, of, str(chunk), str(skip)], stdout=subprocess.PIPE, stderr=subprocess.STDOUT, text=True, errors='replace')
+        pending, got = None, 0
+        for ln in open(of, errors='replace'):
+            if ln.startswith('#PENDING '):
+                pending = ln[9:]
+            elif ln.startswith(('{"mode"', ',{"mode"', '{"', ',{"')) and not ln.startswith('{"chunk"'):
+                try:
+                    recs.append(json.loads(ln.lstrip(',')))
+                except ValueError:
+                    break           # torn last line
+                got += 1
+                pending = None
+        skip += got
+        if p.returncode == 0:
+            break
+        if pending is None:
+            raise V.Broken('h_route failed rc=%d without a pending scene: %s' % (p.returncode, p.stdout[-1500:]))
+        r = json.loads(pending)
+        r['what'] = 'process died: %s' % ('no return within the time limit' if p.returncode in (124, 137, -9) else 'signal %d' % -p.returncode if p.returncode < 0 else 'exit %d' % p.returncode)
+        died.append((len(recs), skip))
+        recs.append(r)
+        skip += 1
+    return recs, died
+
+
 def run_scenes(hr, d, name, scenes, chunk=20):
-    sf = os.path.join(d, name + '.txt')
-    of = os.path.join(d, name + '.json')
-    write_scenes(sf, scenes)
-    rc, out = V.run([hr, 'scenes', sf, of, str(chunk)], timeout=1800)
-    if rc != 0:
-        raise V.Broken('h_route failed rc=%d: %s' % (rc, out[-2000:]))
-    return json.load(open(of))
+    """Runs the scenes through the harness in up to 16 parallel processes; the result has the scenes' order."""
+    from concurrent.futures import ThreadPoolExecutor
+    nparts = max(1, min(V.NCPU, len(scenes) // 50))
+    parts = [scenes[i::nparts] for i in range(nparts)]
+    files = []
+    for i, part in enumerate(parts):
+        sf = os.path.join(d, '%s.%d.txt' % (name, i))
+        write_scenes(sf, part)
+        files.append((sf, os.path.join(d, '%s.%d.out' % (name, i))))
+    with ThreadPoolExecutor(nparts) as ex:
+        res = list(ex.map(lambda f: _run_part(hr, f[0], f[1], chunk), files))
+    recs = [None] * len(scenes)
+    crashed = []
+    for i, (rs, died) in enumerate(res):
+        if len(rs) != len(parts[i]):
+            raise V.Broken('h_route returned %d records for %d scenes' % (len(rs), len(parts[i])))
+        for k, r in enumerate(rs):
+            recs[i + k * nparts] = r
+        crashed += [(i + k * nparts, files[i][0], sk) for k, sk in died]
+    # a death of the optimised build depends on what happens to lie in memory: the sanitizer build names the first invalid access
+    if crashed:
+        hs, = V.build(['h_route'], cfg='san')
+        for gi, sf, sk in crashed[:12]:
+            one = os.path.join(d, '%s.crash%d.txt' % (name, gi))
+            open(one, 'w').write(open(sf).read().splitlines()[sk] + '\n')
+            rc1, out1 = V.run(['timeout', '-s', 'KILL', '600', hs, 'scenes', one, one + '.out', str(chunk)], timeout=700)
+            m = re.search(r'(\w+\.cpp):(\d+):\d+: runtime error', out1) or re.search(r'ERROR: AddressSanitizer: (\S+)', out1)
+            site = ('memory-error@%s' % (m.group(1) + (':' + m.group(2) if m.lastindex > 1 else ''))) if m else 'not-reproduced-in-the-sanitizer-build'
+            recs[gi]['what'] += ' [' + site + ']'
+    json.dump({'chunk': chunk, 'LS': 1024, 'recs': recs}, open(os.path.join(d, name + '.json'), 'w'))
+    return {'chunk': chunk, 'LS': 1024, 'recs': recs}
+
+
+def crash_key(what):
+    """fingerprint of a scene in which the process died"""
+    m = re.search(r'\[(.*?)\]', what)
+    return 'process-died:' + (m.group(1) if m else re.sub(r'[^a-z0-9]+', '-', what[14:].lower()))
 
 
 def bbox(shapes, pts):
